@@ -229,7 +229,19 @@ def run_dataset(job):
     out = {"error": None, "progs": [], "masks": []}
     try:
         try:
-            path = FL.write_dataset(spec, tmp)
+            if spec.get("prelude"):
+                # a dataset of identical shape but other values is row-filtered FIRST in this process (state kept outside the handle)
+                pre = os.path.join(tmp, "pre")
+                os.mkdir(pre)
+                ppf = ParquetFile(FL.write_dataset(spec["prelude"], pre))
+                for prog, _ in progs:
+                    try:
+                        ppf.to_pandas(filters=FL.prog_to_filters(prog), row_filter=True)
+                    except Exception:      # noqa
+                        pass
+            main = os.path.join(tmp, "main")
+            os.mkdir(main)
+            path = FL.write_dataset(spec, main)
             pf = ParquetFile(path)
             full = flat(pf.to_pandas())
         except Exception as e:    # noqa
@@ -560,6 +572,19 @@ def run(ctx):
         ctx.extra["translator"] = {"status": "translator_fallback", "reason": str(e)[:300]}
         ctx.notes.append("translator_fallback: " + str(e)[:300])
 
+    # -------- inventory (regenerated from the source on every run): the three parsers of partition-directory text (labels in
+    # api._path_to_cats, cells in core.read_row_group, what a filter constant is compared with in api.filter_out_cats) apply the same
+    # decoding to the raw text before typing it; fail closed (nothing claimed) when a parser's text variable is not found
+    try:
+        dd = py2coq.dirtext_decoders(os.path.join(C.REPO, "fastparquet", "api.py"), os.path.join(C.REPO, "fastparquet", "core.py"))
+        ctx.extra["directory_text_decoders"] = dd
+        if all(v is not None for v in dd.values()):
+            ctx.obligation("gen:directory_text_decoders_agree (labels / cells / filter apply the same decoding to a directory name)",
+                           dd["labels"] == dd["cells"] == dd["filter"], json.dumps(dd))
+        else:
+            ctx.notes.append("directory_text_decoders: not located for %s (oracle stream `oddpart` only)" % [k for k, v in dd.items() if v is None])
+    except SyntaxError as e:
+        ctx.obligation("gen:directory_text_decoders_agree", False, "source does not parse: %s" % e)
     C.use_shadow()
     warnings.filterwarnings("ignore")
     rng = ctx.rng
@@ -581,9 +606,20 @@ def run(ctx):
         jobs.append(gen_job(rng, v2=(rng.random() < 0.35), nprog=20 if quick else 40, nmask=6 if quick else 10))
     # wave-3 datasets of C05 (tz-aware timestamps against constants in other zones, partition keys at integer representation
     # boundaries, one-sided / foreign statistics, long text) under row-level filtering
-    for flavour, cnt in (("tz", 10 if quick else 60), ("bigpart", 6 if quick else 40), ("onesided", 6 if quick else 40), ("long", 4 if quick else 30)):
+    for flavour, cnt in (("tz", 10 if quick else 60), ("bigpart", 6 if quick else 40), ("onesided", 8 if quick else 40), ("long", 4 if quick else 30),
+                         ("oddpart", 8 if quick else 40)):
         for _ in range(cnt):
             jobs.append(gen_job(rng, v2=(rng.random() < 0.35), nprog=16 if quick else 40, nmask=3, nseq=2, flavour=flavour))
+    # two datasets of identical shape but shifted values, row-filtered one after the other in one process (both orders)
+    for _ in range(8 if quick else 50):
+        a = gen_job(rng, v2=(rng.random() < 0.35), nprog=10 if quick else 30, nmask=0, nseq=0)
+        sa = a[0]
+        sb = FL.shifted_spec(sa, rng.choice([3, 5, -4, 7]))
+        for first, second in ((sa, sb), (sb, sa)):
+            spec = dict(second, prelude=FL.shifted_spec(first, 0), flavour="twin-after-prelude")
+            offs = spec["offsets"] + [spec["n"]]
+            ch = {name: [c["values"][offs[i]:offs[i + 1]] for i in range(len(offs) - 1)] for name, c in spec["cols"].items()}
+            jobs.append((spec, [(FL.gen_program(rng, spec, ch, wrong_type=0), None) for _ in range(10 if quick else 30)], [], False, []))
     results = C.pmap(run_dataset, jobs, init=_init, nproc=min(8, os.cpu_count() or 4), job_timeout=300)
 
     mexprs, mmeta = [], []
